@@ -2,16 +2,22 @@
 import itertools
 from common import f64
 from gen import poly as G
+from gen import inst as GI
 
 PROP = "C03"
-RUNNER = ("RunC03", "run_C03")
-COQ_TARGETS = ["theories/RunC03.vo"]
-AUTHORITY = ("C03_fn / C03_then_eval (coq/props/C03.v): the model's partially evaluated function denotes the original at "
-             "every valuation agreeing with the fixed part")
+RUNNER = ("RunC03i", "run_C03i")
+COQ_TARGETS = ["theories/RunC03i.vo"]
+SHARD = 150
+AUTHORITY = ("C03_fn / C03_then_eval / C03_two_steps (coq/props/C03.v): the model's partially evaluated function denotes the "
+             "original at every valuation agreeing with the fixed part; C03_instance / C03_instance_state: objective, constraint "
+             "records, flags and every recorded variable value of evaluate(pe I s1, s2) equal those of evaluate(I, s1 u s2)")
 RULE = ("random polynomials (degree<=4) in every variant/rendering; partial_evaluate on random subsets of the ids "
         "(incl. empty, all, ids not occurring); pe_steps on splits (s1, s2) of a covering dyadic state: two steps in both "
         "orders vs at once, and evaluate(pe f s1, s2) vs evaluate(f, s1 u s2) (thorough: all 2^n splits for n<=6); "
-        "near-epsilon coefficients. non-trivial = the fixed part meets the function's ids")
+        "near-epsilon coefficients; inst_pe_steps: valid instances (active + removed constraints, dependency functions, "
+        "irrelevant variables, any representation) with a random split of an in-bound covering state: the partially evaluated "
+        "instance (incl. substituted_value bookkeeping and the returned ids) and BOTH evaluations (remainder at s2, original "
+        "at s1 u s2) are judged against the model, whole Solutions. non-trivial = the fixed part meets the function's ids")
 TRUSTED = ["hand-written model coq/theories/PEval.v of evaluate.rs partial_evaluate impls (tied by this correspondence only)"]
 ASSUMPTIONS = ["small dyadic numbers: f64 arithmetic of the SDK is exact"]
 PLANNED = []
@@ -39,6 +45,15 @@ def gen(rng, tier):
             s1 = [e for e, b in zip(full, m) if b]
             s2 = [e for e, b in zip(full, m) if not b]
             cases.append({"op": "pe_steps", "input": [fn, s1, s2], "stream": "steps/" + fn[0]})
+    m = 120 if tier == "quick" else 2000
+    for k in range(m):
+        inst, info = GI.rand_instance(rng, allow_unset=False)
+        full = GI.rand_state_for(rng, info, include_irrelevant=0.7, extra=0.0)
+        nsteps = rng.choice([1, 1, 2, 2, 3])
+        mask = [rng.randint(0, nsteps) for _ in full]
+        steps = [[e for e, b in zip(full, mask) if b == k + 1] for k in range(nsteps)]
+        last = [e for e, b in zip(full, mask) if b == 0]
+        cases.append({"op": "inst_pe_steps", "input": [inst, steps, last], "stream": "inst/%d" % nsteps})
     # near-epsilon coefficients: products with values landing around the dropping threshold
     for e in (-51, -52, -53):
         for m in (1.0, 1.5, 0.75):
@@ -52,5 +67,7 @@ def gen(rng, tier):
 
 
 def nontrivial(case):
+    if case["op"] == "inst_pe_steps":
+        return any(len(st) > 0 for st in case["input"][1])
     ids = G.fn_ids(case["input"][0])
     return any(e[0] in ids for e in case["input"][1])
